@@ -120,8 +120,11 @@ class Impl(object):
 
     def flush(self):
         if self.backend == "f":
-            self.t.lru_trie_file.flush()
-            self.t.link_store_file.flush()
+            for f in (self.t.lru_trie_file, self.t.link_store_file):
+                try:
+                    f.flush()
+                except ValueError:
+                    pass  # already closed (a failed reopen): the bytes on disk are final
 
     def file_bytes(self, which):
         if self.backend == "f":
@@ -161,22 +164,26 @@ class Impl(object):
     def exec(self, op, a):
         t = self.t
         if op == 1:
-            if self.backend == "f":
-                t.close()
-            self.open(a[0], [(p, k) for p, k in a[1]], overwrite=True)
-            return 1
+            def go1():
+                if self.backend == "f":
+                    t.close()
+                self.open(a[0], [(p, k) for p, k in a[1]], overwrite=True)
+                return 1
+            return self.call(go1)
         if op == 13:
-            if self.backend == "f":
-                t.close()
-                self.open(a[0], [(p, k) for p, k in a[1]], overwrite=False)
-            else:
-                # a memory index cannot be reopened: only the RAM rules are replaced
-                import re
-                t.default_webentity_creation_rule = re.compile(rule_regex(a[0]), re.I)
-                t.webentity_creation_rules = {}
-                for p, k in a[1]:
-                    t.add_webentity_creation_rule(p, rule_regex(k), False)
-            return 1
+            def go13():
+                if self.backend == "f":
+                    t.close()
+                    self.open(a[0], [(p, k) for p, k in a[1]], overwrite=False)
+                else:
+                    # a memory index cannot be reopened: only the RAM rules are replaced
+                    import re
+                    t.default_webentity_creation_rule = re.compile(rule_regex(a[0]), re.I)
+                    t.webentity_creation_rules = {}
+                    for p, k in a[1]:
+                        t.add_webentity_creation_rule(p, rule_regex(k), False)
+                return 1
+            return self.call(go13)
         if op == 14:
             def go():
                 d = rule_regex(a[0]) if a[0] is not None else None
@@ -400,6 +407,9 @@ def _interleave(self, specs, sched):
                 gens.append(t.add_webentity_creation_rule_iter(sp[1], rule_regex(sp[2])))
             elif sp[0] == 3:
                 gens.append(t.get_webentities_links_iter(out=bool(sp[1]), include_auto=bool(sp[2])))
+            elif sp[0] == 4:
+                gens.append(t.get_webentity_pagelinks_iter(sp[1], list(sp[2]), include_inbound=bool(sp[3]),
+                                                           include_internal=bool(sp[4]), include_outbound=bool(sp[5])))
             else:
                 gens.append(t.get_webentity_pages_iter(sp[1], list(sp[2])))
             res.append(None)
@@ -423,20 +433,76 @@ def _interleave(self, specs, sched):
             except Exception as e:
                 done[i] = True
                 res[i] = Crash("%s: %s" % (type(e).__name__, e))
+        # the plain (uninterrupted) answer of every page-link query at every moment of its execution: what "qualified"
+        # means for the sandwich clause of the property (side channel, not part of the reply)
+        moments = dict((k, []) for k, sp in enumerate(specs) if sp[0] in (3, 4))
+
+        def snapshot():
+            for k in moments:
+                if done[k]:
+                    continue
+                sp = specs[k]
+                TIS.should_yield = orig
+                if sp[0] == 3:
+                    TIS.should_yield = orig
+                    try:
+                        g = t.get_webentities_links(out=bool(sp[1]), include_auto=bool(sp[2]))
+                        coarse = set((a, b) for a, c in g.items() for b in c if not isinstance(b, str))
+                        # the page links that sustain the edges: (source page, target page, edge)
+                        we = {}
+
+                        def we_of(l):
+                            if l not in we:
+                                try:
+                                    we[l] = t.retrieve_webentity(l)
+                                except TE:
+                                    we[l] = 0
+                            return we[l]
+                        fine = set()
+                        for a, b in t.links_iter(out=True):
+                            wa, wb = we_of(a), we_of(b)
+                            if wa and wb and (sp[2] or wa != wb):
+                                fine.add((a, b, (wa, wb) if sp[1] else (wb, wa)))
+                        moments[k].append((coarse, fine))
+                    except Exception:
+                        moments[k].append(None)
+                    finally:
+                        TIS.should_yield = always
+                    continue
+                try:
+                    # one answer per requested clause (inbound / internal / outbound): a link qualifies under a clause
+                    a = {}
+                    for c in range(3):
+                        if sp[3 + c]:
+                            a[c] = [tuple(x) for x in t.get_webentity_pagelinks(
+                                sp[1], list(sp[2]), include_inbound=c == 0, include_internal=c == 1, include_outbound=c == 2)]
+                except Exception:
+                    a = None
+                finally:
+                    TIS.should_yield = always
+                moments[k].append(a)
+        snapshot()
         for i in sched:
             if 0 <= i < len(gens):
                 advance(i)
+                if moments:
+                    snapshot()
         for i in range(len(gens)):
             guard = 0
             while not done[i] and guard < 100000:
                 advance(i)
                 guard += 1
+                if moments:
+                    snapshot()
+        self.last_moments = moments
         out = []
         for sp, r in zip(specs, res):
             if r is REFUSED or isinstance(r, Crash):
                 out.append([1, r])
             elif sp[0] in (0, 1):
                 out.append([1, self.report(r)])
+            elif sp[0] == 4:
+                out.append([1, [list(x) for x in r]])
             elif sp[0] == 3:
                 g = []
                 for src, cnt in r.items():
